@@ -203,6 +203,12 @@ def main(argv=None):
         return 3
 
     warm_stdlib(os.path.join(os.path.dirname(pkg_file), "__main__.py"))
+    # The interpreter seeds the global `random` from the OS at start-up: two templates with the same
+    # identity (replicas, and the fresh interpreter of a replay) would hand different fresh names to
+    # the reference calls.  The state is made a function of the template identity.
+    import random as _random
+
+    _random.seed("verif-template/%s/%s/%s" % (os.environ.get("PYTHONHASHSEED"), os.environ.get("VERIF_HEAP_PAD"), sys.flags.optimize))
     tpl = Template(repo, wid)
     from sim import c10, c16
 
